@@ -138,6 +138,88 @@ def generate(repo):
     A('/-- the result carries the wavelength / value unit of the left operand (`true`) or of the right one (`false`) -/')
     A(f'def ufuncResultWaveUnitFromSelf : Bool := {side(ru[0], "waveunit")}')
     A(f'def ufuncResultValueUnitFromSelf : Bool := {side(ru[1], "valueunit")}')
+    # ---- _intersect: which grid points belong to an operand (range test with the guard band), and its use in _interp_common
+    fi = [n for n in tree.body if isinstance(n, ast.FunctionDef) and n.name == '_intersect']
+    if not fi: raise Refuse('_intersect not found')
+    ib = [st for st in fi[0].body if not (isinstance(st, ast.Expr) and isinstance(st.value, ast.Constant))]
+    if [a.arg for a in fi[0].args.args] != ['subset', 'superset', 'tol']: raise Refuse('_intersect: parameters')
+    if not (len(ib) == 1 and isinstance(ib[0], ast.Return) and isinstance(ib[0].value, ast.Call) and ast.unparse(ib[0].value.func) == 'np.where' and len(ib[0].value.args) == 1):
+        raise Refuse('_intersect: body is not `return np.where(<test>)`')
+    tst = ib[0].value.args[0]
+    if not (isinstance(tst, ast.BinOp) and isinstance(tst.op, ast.BitAnd)): raise Refuse('_intersect: test is not `a & b`')
+    CMPS = {ast.Gt: '>', ast.Lt: '<', ast.GtE: '≥', ast.LtE: '≤'}
+    def iex(e):
+        k = ast.unparse(e)
+        if k == 'superset': return 'w'
+        if k == 'subset.min()': return 'lo'
+        if k == 'subset.max()': return 'hi'
+        if k == 'tol': return 'tol'
+        if isinstance(e, ast.BinOp) and type(e.op) in (ast.Add, ast.Sub): return f"({iex(e.left)} {'+' if isinstance(e.op, ast.Add) else '-'} {iex(e.right)})"
+        raise Refuse(f'_intersect: term {k}')
+    def icmp(e):
+        if not (isinstance(e, ast.Compare) and len(e.ops) == 1 and type(e.ops[0]) in CMPS): raise Refuse(f'_intersect: comparison {ast.unparse(e)}')
+        return f'decide ({iex(e.left)} {CMPS[type(e.ops[0])]} {iex(e.comparators[0])})'
+    A(f'\n/-- `_intersect(subset, superset, tol)`: a grid point `w` is kept when `{ast.unparse(tst)}` (lo/hi = subset.min()/max()) -/')
+    A(f'def intersectKeeps (lo hi tol w : Rat) : Bool := {icmp(tst.left)} && {icmp(tst.right)}')
+    uses = {}
+    for st in body:
+        if isinstance(st, ast.Assign) and isinstance(st.value, ast.Call) and ast.unparse(st.value.func) == '_intersect':
+            uses[ast.unparse(st.targets[0])] = ast.unparse(st.value)
+    if uses != {'s1_index': '_intersect(s1.wave, commonwave, tol)', 's2_index': '_intersect(s2.wave, commonwave, tol)'}: raise Refuse(f'_interp_common: _intersect calls {uses}')
+    clips = {}
+    for st in body:
+        if isinstance(st, ast.Assign) and isinstance(st.value, ast.Call) and ast.unparse(st.value.func) == 'np.clip':
+            clips[ast.unparse(st.targets[0])] = ast.unparse(st.value)
+    if clips != {'s1_wave': 'np.clip(commonwave[s1_index], s1.wave.min(), s1.wave.max())', 's2_wave': 'np.clip(commonwave[s2_index], s2.wave.min(), s2.wave.max())'}: raise Refuse(f'_interp_common: clip calls {clips}')
+    # ---- operators: `a + b` -> Spectrum.add -> _ufunc(np.add, …): which NumPy ufunc each operator / method ends in, argument pass-through
+    NP = {'np.add': 'add', 'np.subtract': 'subtract', 'np.multiply': 'multiply', 'np.divide': 'divide', 'np.true_divide': 'divide', 'np.power': 'power'}
+    cls_ = [n for n in tree.body if isinstance(n, ast.ClassDef) and n.name == 'Spectrum'][0]
+    meths = {n.name: n for n in cls_.body if isinstance(n, ast.FunctionDef)}
+    def nodoc(f): return [st for st in f.body if not (isinstance(st, ast.Expr) and isinstance(st.value, ast.Constant))]
+    meth_op = {}
+    for m_ in ('add', 'subtract', 'multiply', 'divide', 'power'):
+        f = meths.get(m_)
+        if f is None: raise Refuse(f'Spectrum.{m_} not found')
+        a = f.args
+        if [x.arg for x in a.args] != ['self', 'other', 'sampling', 'method', 'fill_value'] or [ast.unparse(d) for d in a.defaults] != ["'min'", "'linear'", '0'] or a.vararg or a.kwarg or a.kwonlyargs:
+            raise Refuse(f'Spectrum.{m_}: signature/defaults')
+        b_ = nodoc(f)
+        if not (len(b_) == 1 and isinstance(b_[0], ast.Return) and isinstance(b_[0].value, ast.Call) and ast.unparse(b_[0].value.func) == 'self._ufunc' and not b_[0].value.keywords
+                and [ast.unparse(x) for x in b_[0].value.args[1:]] == ['other', 'sampling', 'method', 'fill_value'] and ast.unparse(b_[0].value.args[0]) in NP):
+            raise Refuse(f'Spectrum.{m_}: body is not `return self._ufunc(np.<ufunc>, other, sampling, method, fill_value)`')
+        meth_op[m_] = NP[ast.unparse(b_[0].value.args[0])]
+    dun_op = {}
+    for d_ in ('__add__', '__sub__', '__mul__', '__truediv__', '__pow__'):
+        f = meths.get(d_)
+        if f is None: raise Refuse(f'Spectrum.{d_} not found')
+        b_ = nodoc(f)
+        if [x.arg for x in f.args.args] != ['self', 'other'] or not (len(b_) == 1 and isinstance(b_[0], ast.Return) and isinstance(b_[0].value, ast.Call) and not b_[0].value.keywords
+                and [ast.unparse(x) for x in b_[0].value.args] == ['other'] and isinstance(b_[0].value.func, ast.Attribute) and ast.unparse(b_[0].value.func.value) == 'self'
+                and b_[0].value.func.attr in meth_op):
+            raise Refuse(f'Spectrum.{d_}: body is not `return self.<method>(other)`')
+        dun_op[d_] = b_[0].value.func.attr
+    refl = []
+    for st in cls_.body:
+        if isinstance(st, ast.Assign) and len(st.targets) == 1 and isinstance(st.targets[0], ast.Name) and st.targets[0].id.startswith('__'):
+            if not (isinstance(st.value, ast.Name) and st.value.id in dun_op): raise Refuse(f'Spectrum: class-level alias {ast.unparse(st)}')
+            refl.append((st.targets[0].id, st.value.id))
+    for n_ in meths:
+        if n_.startswith('__r') and n_.endswith('__') and n_ != '__repr__': raise Refuse(f'Spectrum.{n_}: reflected operator defined as a method')
+    # operand order inside _ufunc: the left operand (self) is the FIRST argument of the ufunc in both branches
+    calls = sorted(ast.unparse(n) for n in ast.walk(uf[0]) if isinstance(n, ast.Call) and ast.unparse(n.func) == 'ufunc')
+    ic = [st for st in ast.walk(uf[0]) if isinstance(st, ast.Assign) and isinstance(st.value, ast.Call) and ast.unparse(st.value.func) == '_interp_common']
+    if calls != ['ufunc(self.value, other)', 'ufunc(self_value, other_value)'] or len(ic) != 1 or ast.unparse(ic[0].targets[0]).strip('()') != 'wave, self_value, other_value' \
+            or [ast.unparse(x) for x in ic[0].value.args] != ['self', 'other', 'sampling', 'method', 'fill_value']:
+        raise Refuse(f'_ufunc: operand order {calls}')
+    rt = [st for st in fn[0].body if isinstance(st, ast.Return)]
+    if len(rt) != 1 or ast.unparse(rt[0].value).strip('()') != 'commonwave, s1_value, s2_value': raise Refuse('_interp_common: return order')
+    A('\n/-- the arithmetic a Spectrum operator ends in: `a <op> b` -> `Spectrum.<method>(b)` -> `_ufunc(np.<ufunc>, b, sampling, method, fill_value)` (arguments passed through in this order, defaults \'min\', \'linear\', 0 for all five; the left operand is the first argument of the ufunc) -/')
+    A('inductive ArithOp where\n  | add\n  | subtract\n  | multiply\n  | divide\n  | power\nderiving DecidableEq, Repr')
+    A('def operatorOp : String → Option ArithOp\n' + '\n'.join(f'  | "{d_}" => some .{meth_op[dun_op[d_]]}' for d_ in dun_op) + '\n  | _ => none')
+    A('def operatorMethod : String → Option String\n' + '\n'.join(f'  | "{d_}" => some "{dun_op[d_]}"' for d_ in dun_op) + '\n  | _ => none')
+    A('def methodOp : String → Option ArithOp\n' + '\n'.join(f'  | "{m_}" => some .{meth_op[m_]}' for m_ in meth_op) + '\n  | _ => none')
+    A('/-- reflected operators defined by class-level aliasing (`__rmul__ = __mul__`) -/')
+    A('def reflectedAliases : List (String × String) := [' + ', '.join(f'("{a_}", "{b_}")' for a_, b_ in refl) + ']')
     return '\n'.join(L) + '\n', {'assignments': order, 'sampling': sel, 'elementwise': types}
 
 MODULES = [{'name': 'InterpGrid', 'src': SRC, 'generator': generate, 'props': ['C13']}]
